@@ -20,7 +20,7 @@ Nested   == {"cont.n0", "cont.case1", "cont.case2"}         \* stages that run a
 Outage   == {"cont.case1", "cont.case2"}                    \* stages that take an element out of service meanwhile
 
 \* network features that create auxiliary / temporary state inside a calculation
-Features == {"dcline", "taptable", "usergens"}
+Features == {"dcline", "taptable", "usergens", "ideal"}      \* "ideal": an ideal phase shifter next to NaN tap data
 AuxRows(feats) == IF "dcline" \in feats THEN 2 ELSE 0       \* two auxiliary gens per dcline (one dcline in the template)
 
 \* natural failures: the stage DURING which the implementation raises (before the stage's hook point)
